@@ -554,8 +554,8 @@ def oracle_uni(ctx, rng, n_random, forced=True):
     checked = 0
     for cls, kw in uni_configs():
         P = pool(rng)
-        hists = ([[0, 2], [2, 3], [2, 0], [2, 7], [0, 2, 3], [2, 0, 3], [8, 2], [9, 3], [10, 2], [11, 3], [2, 8, 3]]
-                 if forced else []) + \
+        special = [[8, 2], [9, 3], [10, 2], [11, 3], [2, 8, 3]]      # value-dependent clean-ups: always exercised
+        hists = ([[0, 2], [2, 3], [2, 0], [2, 7], [0, 2, 3], [2, 0, 3]] if forced else []) + special + \
             [[rng.randrange(len(P)) for _ in range(rng.randint(2, 4))] for _ in range(n_random)]
         for h in hists:
             seed0 = rng.randrange(1 << 20)
